@@ -16,6 +16,8 @@ import (
 	"github.com/shutter-network/rolling-shutter/rolling-shutter/shdb"
 
 	"verif/sim/simkit"
+	"verif/sim/simtm"
+	"verif/sim/pgsim"
 )
 
 func init() {
@@ -191,7 +193,51 @@ func runC07(r *simkit.Run) {
 			}
 		}
 	}
+	// ... and a keyper that fell behind (the stall above) may be killed in the middle of its
+	// catch-up run, at its k-th round trip after the stall, and restarted
+	crashInCatchUp := stallNode >= 0 && c.Chance(400, "crash-during-catch-up")
+	catchUpK := c.Range(3, 90, "crash-at-catch-up-request")
+	armed, cnt := false, 0
+	var crashedNode *bNode
+	if crashInCatchUp {
+		w.decideHook = func(rq *simkit.Req) (any, bool) {
+			nd := honest[stallNode]
+			if !armed || rq.Node != nd.name || nd.dying {
+				return nil, false
+			}
+			cnt++
+			if cnt != catchUpK {
+				return nil, false
+			}
+			armed = false
+			crashedNode = nd
+			w.crash(nd)
+			r.Probe("crash-during-catch-up")
+			if _, ok := rq.Info.(*pgsim.Request); ok {
+				return pgsim.ResetConnBefore, true
+			}
+			if rq.Kind == "tm" {
+				return tmFault{before: simtm.ErrRPC}, true
+			}
+			return errInjectedRPC, true
+		}
+	}
 	for blk := 0; blk < int(8*L)+40 && !done; blk++ {
+		if crashInCatchUp && blk == stallFrom+stallLen {
+			armed = true
+		}
+		if crashedNode != nil {
+			nd := crashedNode
+			crashedNode = nil
+			for i := 0; i < 20 && nd.running; i++ {
+				w.settle(200 * time.Millisecond)
+			}
+			if nd.running {
+				r.InfraFail("crashed keyper %s does not stop", nd.name)
+			}
+			w.restart(nd)
+			w.settle(time.Second)
+		}
 		if restartNode >= 0 && eonStartHeight == 0 {
 			findEonStart()
 		}
@@ -225,7 +271,7 @@ func runC07(r *simkit.Run) {
 			if found, _, _ := nd.dkgResult(eon); !found {
 				done = false
 			}
-			if !nd.running {
+			if !nd.running && nd != crashedNode {
 				r.Fail("keyper-loop-stopped", "main-loop", "%s: main loop stopped without any injected fault: %v", nd.name, nd.loopErr)
 			}
 		}
